@@ -441,23 +441,33 @@ Lemma advance_rollback_timeline : forall p gs g w d o p' o' G,
   (forall h, In h (local_handles p) -> exists pi, assoc_get (ps_pending p) h = Some pi) ->
   TI p gs G ->
   exists gs' R, o_requests o' = o_requests o ++ R /\ QS w d p' gs' /\ TI p' gs' (replay_hist G R) /\
-    hist_step d (ps_pending p) (local_handles p) gs gs' /\ ps_kinds p' = ps_kinds p.
+    hist_step d (ps_pending p) (local_handles p) gs gs' /\ ps_kinds p' = ps_kinds p /\
+    exists cf, confirmed_frame p = Ok cf /\ o_spec_sends o' = o_spec_sends o ++ spec_sent p gs cf /\
+               ps_next_spec p' = next_spec_after p cf /\ ps_spectators p' = ps_spectators p.
 Proof.
   intros p gs g w d o p' o' G E HQS HJI Hbnd Hpend (HG & HGI & HPN).
   destruct (rollback_confirm_progress predict p gs g w d o HQS HJI Hbnd)
-    as (cf & p1 & o1 & s3 & gs3 & Ecf & Er & Hshape & E3 & HQS3 & Hcl3 & Hmap3 & Hc3 & Hsame3 & Hc1).
-  pose proof HQS as [Hw Hd Hmode Hn Hconn Hgos HQ Hlast Hfr Hkinds Hpe].
-  destruct Hmode as (Hrun & Hsp & Hspec & Hdf). destruct Hn as (Hn1 & Hn2 & Hn3 & Hn4). destruct Hfr as (HfL & Hfc & Hfw).
+    as (cf & p1 & o1 & p2 & o2 & s3 & gs3 & Ecf & Er & Hshape & Es & Hp2 & Ho2 & Hsent & E3 & HQS3 & Hcl3 & Hmap3 & Hc3 & Hsame3 & Hc1).
+  pose proof HQS as [Hw Hd Hmode Hn Hconn Hgos HQ Hlast Hfr Hkinds Hpe Hsok].
+  destruct Hmode as (Hrun & Hsp & Hdf). destruct Hn as (Hn1 & Hn2 & Hn3 & Hn4). destruct Hfr as (HfL & Hfc & Hfw).
   pose proof (QsI_length _ _ _ _ HQ) as Hlq.
   destruct (handle_rollback_ti p gs cf o p1 o1 G Er Hsp Hconn ltac:(lia) Hdf HQ ltac:(lia) Hfc HG HGI HPN)
     as (R1 & Ho1 & HGI1 & HG1 & HPN1).
   unfold advance_rollback_frame in E. rewrite Ecf in E. cbn [res_bind] in E. rewrite Er in E. cbn [res_bind] in E.
-  assert (Hspec1 : ps_spectators p1 = []) by (rewrite Hshape; cbn; exact Hspec).
-  unfold send_confirmed_inputs_to_spectators in E. rewrite Hspec1 in E. cbn [res_bind] in E.
-  assert (Hsp1 : ps_sparse p1 = false) by (rewrite Hshape; cbn; exact Hsp).
-  rewrite Hsp1, E3 in E. cbn [res_bind] in E.
-  assert (Hp3 : with_sync p1 s3 = with_sync p s3) by (rewrite Hshape; apply with_sync_idem).
-  rewrite Hp3 in E. set (p3 := with_sync p s3) in *.
+  rewrite Es in E. cbn [res_bind] in E.
+  assert (Hf2 : ps_sparse p2 = false /\ ps_sync p2 = ps_sync p1 /\ local_handles (with_sync p2 s3) = local_handles p /\
+                ps_pending (with_sync p2 s3) = ps_pending p /\ ps_kinds (with_sync p2 s3) = ps_kinds p /\
+                ps_next_spec (with_sync p2 s3) = next_spec_after p cf /\ ps_spectators (with_sync p2 s3) = ps_spectators p).
+  { rewrite Hp2, Hshape. repeat split. exact Hsp. }
+  destruct Hf2 as (Hsp2 & Hsy2 & Hlh3 & Hpe3 & Hkk3 & Hns3 & Hss3).
+  rewrite Hsp2, Hsy2, E3 in E. cbn [res_bind] in E.
+  assert (Hspec_o1 : o_spec_sends o1 = o_spec_sends o).
+  { destruct HJI as [Jw Jmp Jfr Jcur Jroll]. destruct (Jroll ltac:(destruct Hw; lia)) as (_ & Jm & Jcells).
+    destruct (handle_rollback_exec predict p cf o p1 o1 g w (s_current (ps_sync p) - 1) Er Hsp ltac:(destruct Hw; lia) Jm Jfr Hfc ltac:(lia) Jcells)
+      as (_ & _ & _ & _ & X & _). exact X. }
+  set (p3 := with_sync p2 s3) in *.
+  assert (Hpend3 : forall h, In h (local_handles p3) -> exists pi, assoc_get (ps_pending p3) h = Some pi).
+  { intros h Hin. rewrite Hpe3. apply Hpend. rewrite <- Hlh3. exact Hin. }
   set (c := s_current (ps_sync p)) in *. set (G1 := replay_hist G R1) in *.
   (* the confirmation step changes neither the flags nor the histories *)
   assert (HGI3 : GIl c G1 (s_queues s3) gs3 /\ PNl c (s_queues s3) gs3).
@@ -478,33 +488,38 @@ Proof.
   assert (Hall : Forall (fun h => 0 <= h /\ nth_error (ps_kinds p3) (Z.to_nat h) = Some KLocal /\
                                    exists pi, assoc_get (ps_pending p3) h = Some pi) (local_handles p3)).
   { apply Forall_forall. intros h Hin. pose proof Hin as Hin2. apply (local_handles_spec p3 h Hnp3) in Hin2.
-    destruct Hin2 as (Hr & Hk). split; [lia|]. split; [exact Hk|]. apply Hpend. exact Hin. }
+    destruct Hin2 as (Hr & Hk). split; [lia|]. split; [exact Hk|]. apply Hpend3. exact Hin. }
   destruct (register_go_progress (local_handles p3) w d p3 gs3 HQS3 Hcl3 (local_handles_nodup p3) Hall)
     as (p4 & gs4 & E4 & HQS4 & Hcl4 & Hrest4 & Hc4 & HL4 & Hdone4 & Hgrow4 & Hhist4).
+  rewrite Hpe3, Hlh3 in Hhist4.
   assert (Hhist : hist_step d (ps_pending p) (local_handles p) gs gs4).
   { intros h0 gh' A. destruct (Hhist4 h0 gh' A) as (gh3 & A3 & B3).
     destruct (map_fst_nth gs gs3 h0 gh3 Hmap3 A3) as (gh & Ag & Efst). exists gh. split; [exact Ag|]. rewrite Efst. exact B3. }
   unfold register_local_inputs in E. rewrite E4 in E. cbn [res_bind] in E.
-  destruct (send_ready_outgoing_ok p4 o1) as (p5 & o5 & E5 & O5). rewrite E5 in E. cbn [res_bind] in E.
+  destruct (send_ready_outgoing_ok p4 o2) as (p5 & o5 & E5 & O5). rewrite E5 in E. cbn [res_bind] in E.
   pose proof (QS_out_only _ _ _ _ _ HQS4 O5) as HQS5.
   assert (Hs5 : ps_sync p5 = ps_sync p4) by (rewrite O5; reflexivity).
-  assert (Ho5 : o_requests o5 = o_requests o1).
-  { clear - E5. unfold send_ready_outgoing in E5. destruct (ps_remotes p4); [injection E5 as _ <-; reflexivity|].
-    destruct (local_handles p4); [injection E5 as _ <-; reflexivity|].
-    pose proof (send_ready_go_frame _ _ _ _ _ _ E5) as X. tauto. }
+  assert (Ho5 : o_requests o5 = o_requests o1 /\ o_spec_sends o5 = o_spec_sends o ++ spec_sent p gs cf).
+  { destruct (send_ready_outgoing_frame _ _ _ _ E5) as (_ & _ & X1 & X2). split; [congruence|]. rewrite X2, Hsent, Hspec_o1. reflexivity. }
+  destruct Ho5 as (Ho5 & Hsp5).
+  assert (Hrest5 : ps_next_spec p5 = next_spec_after p cf /\ ps_spectators p5 = ps_spectators p).
+  { rewrite O5. cbn [with_outgoing ps_next_spec ps_spectators].
+    destruct Hrest4 as (_ & _ & _ & _ & _ & _ & _ & _ & X2 & _ & X1).
+    split; congruence. }
+  destruct Hrest5 as (Hns5 & Hss5).
   assert (Hmp5 : ps_maxpred p5 = w) by (destruct (qs_w _ _ _ _ HQS5) as (_ & X & _); exact X).
   rewrite Hmp5, Hs5 in E.
   assert (Hk5 : ps_kinds p5 = ps_kinds p3).
   { rewrite O5. cbn [with_outgoing ps_kinds]. destruct Hrest4 as (_ & _ & _ & _ & _ & X & _). exact X. }
-  subst p3. cbn [with_sync ps_sync] in Hc4, Hgrow4, Hdone4. rewrite Hc3 in Hc4, Hgrow4, Hdone4. fold c in Hc4, Hgrow4, Hdone4. set (p3 := with_sync p s3) in *.
+  subst p3. cbn [with_sync ps_sync] in Hc4, Hgrow4, Hdone4. rewrite Hc3 in Hc4, Hgrow4, Hdone4. fold c in Hc4, Hgrow4, Hdone4. set (p3 := with_sync p2 s3) in *.
   pose proof (GIl_grows _ _ _ _ _ _ Hgrow4 HGI3) as HGI4. pose proof (PNl_grows _ _ _ _ _ Hgrow4 HPN3) as HPN4.
   set (s4 := ps_sync p4) in *.
   set (L4 := s_last_confirmed s4) in *.
   set (fa := if L4 =? NULL then s_current s4 else s_current s4 - L4) in *.
   destruct (fa <? w) eqn:Eg.
-  2:{ injection E as <- <-. exists gs4, R1. split; [rewrite Ho5; exact Ho1|]. split; [exact HQS5|]. split; [|split; [exact Hhist|exact Hk5]].
+  2:{ injection E as <- <-. exists gs4, R1. split; [rewrite Ho5; exact Ho1|]. split; [exact HQS5|]. split; [|split; [exact Hhist|split; [congruence|exists cf; split; [exact Ecf|split; [exact Hsp5|split; [exact Hns5|exact Hss5]]]]]].
       unfold TI. rewrite Hs5. fold s4. rewrite Hc4. split; [exact HG1|]. split; [exact HGI4|exact HPN4]. }
-  pose proof HQS5 as [Hw5 Hd5 Hmode5 Hn5 Hconn5 Hgos5 HQ5 Hlast5 Hfr5 Hkinds5 Hpe5].
+  pose proof HQS5 as [Hw5 Hd5 Hmode5 Hn5 Hconn5 Hgos5 HQ5 Hlast5 Hfr5 Hkinds5 Hpe5 Hsok5].
   rewrite Hs5 in HQ5, Hfr5. fold s4 L4 in HQ5, Hfr5. rewrite Hc4 in HQ5, Hfr5.
   destruct Hn5 as (Hn51 & Hn52 & Hn53 & Hn54). destruct Hfr5 as (HfL5 & Hfc5 & Hfw5).
   pose proof (QsI_length _ _ _ _ HQ5) as Hlq5.
@@ -545,7 +560,8 @@ Proof.
       * rewrite D1, U1. exact HK.
       * exact HK.
     + intros h pi X. discriminate X.
-  - split; [|split; [exact Hhist|exact Hk5]].
+    + eapply spec_ok_grow; [exact Hsok5|reflexivity|reflexivity|cbn; rewrite Hs5; reflexivity|apply grow_refl].
+  - split; [|split; [exact Hhist|split; [cbn [with_sync with_pending ps_kinds]; congruence|exists cf; split; [exact Ecf|split; [cbn [add_req o_spec_sends]; exact Hsp5|split; [cbn; exact Hns5|cbn; exact Hss5]]]]]].
     unfold TI. cbn [with_sync ps_sync advance_frame with_current with_queues s_current s_queues]. rewrite Hc4.
     rewrite replay_hist_app. cbn [replay_hist]. fold G1.
     split; [rewrite glen_app; lia|]. split.
@@ -554,18 +570,42 @@ Proof.
 Qed.
 
 
+(* what one call hands to the spectators: the next n frames after those already sent, consecutive,
+   each with the inputs held for it (n = 0 for every call other than a successful advance_frame) *)
+Definition spec_step (p : p2p) (gs : list ghost) (o : pout) (p' : p2p) : Prop :=
+  ps_spectators p' = ps_spectators p /\
+  exists n : nat,
+    o_spec_sends o = (match ps_spectators p with [] => [] | _ =>
+                        if existsb (fun b => b) (ps_spectators p)
+                        then map (fun f => (f, held_at gs f)) (zrange_from (ps_next_spec p) n) else [] end) /\
+    ps_next_spec p' = (match ps_spectators p with [] => ps_next_spec p | _ => ps_next_spec p + Z.of_nat n end).
+
+Lemma spec_step_none : forall p gs o p', ps_spectators p' = ps_spectators p -> ps_next_spec p' = ps_next_spec p ->
+  o_spec_sends o = [] -> spec_step p gs o p'.
+Proof.
+  intros p gs o p' A B C. split; [exact A|]. exists O. rewrite C, B. cbn [zrange_from map Z.of_nat].
+  destruct (ps_spectators p); [split; reflexivity|]. destruct (existsb _ _); split; try reflexivity; lia.
+Qed.
+
+Lemma spec_sent_step : forall p gs cf o p', ps_spectators p' = ps_spectators p ->
+  o_spec_sends o = spec_sent p gs cf -> ps_next_spec p' = next_spec_after p cf -> spec_step p gs o p'.
+Proof.
+  intros p gs cf o p' A B C. split; [exact A|]. exists (Z.to_nat (cf - ps_next_spec p + 1)).
+  unfold spec_sent, next_spec_after in *. rewrite B, C. destruct (ps_spectators p); [split; reflexivity|]. split; [reflexivity|lia].
+Qed.
+
 Lemma advance_timeline : forall p gs g w d p' o r G,
   advance predict p = Ok (p', o, r) ->
   QS w d p gs -> JI w p g -> Forall (fun c => cs_last c < I32MAX) (ps_status p) -> TI p gs G ->
   exists gs', QS w d p' gs' /\ TI p' gs' (replay_hist G (o_requests o)) /\
-    hist_step d (ps_pending p) (local_handles p) gs gs' /\ ps_kinds p' = ps_kinds p.
+    hist_step d (ps_pending p) (local_handles p) gs gs' /\ ps_kinds p' = ps_kinds p /\ spec_step p gs o p'.
 Proof.
   intros p gs g w d p' o r G E HQS HJI Hbnd HTI.
-  pose proof HQS as [Hw Hd Hmode Hn Hconn Hgos HQ Hlast Hfr Hkinds Hpe].
-  destruct Hw as (Hw1 & Hw2 & Hw3). destruct Hmode as (Hrun & Hsp & Hspec & Hdf).
+  pose proof HQS as [Hw Hd Hmode Hn Hconn Hgos HQ Hlast Hfr Hkinds Hpe Hsok].
+  destruct Hw as (Hw1 & Hw2 & Hw3). destruct Hmode as (Hrun & Hsp & Hdf).
   unfold advance in E. rewrite Hrun in E. cbn [negb] in E.
   destruct (forallb _ (local_handles p)) eqn:Efa; cbn [negb] in E.
-  2:{ injection E as <- <- <-. exists gs. split; [exact HQS|]. split; [exact HTI|]. split; [apply hist_step_refl|reflexivity]. }
+  2:{ injection E as <- <- <-. exists gs. split; [exact HQS|]. split; [exact HTI|]. split; [apply hist_step_refl|]. split; [reflexivity|apply spec_step_none; reflexivity]. }
   assert (Hpend : forall h, In h (local_handles p) -> exists pi, assoc_get (ps_pending p) h = Some pi).
   { intros h Hin. rewrite forallb_forall in Efa. specialize (Efa h Hin).
     destruct (assoc_get (ps_pending p) h); [eauto|discriminate]. }
@@ -574,10 +614,11 @@ Proof.
                      then res_bind (save_current_state (ps_sync p)) (fun '(s1, r) => Ok (with_sync p s1, add_req out0 r))
                      else Ok (p, out0)) = Ok (p1, o1) /\ QS w d p1 gs /\ JI w p1 g /\ ps_status p1 = ps_status p /\
                      local_handles p1 = local_handles p /\ ps_pending p1 = ps_pending p /\ ps_remotes p1 = ps_remotes p /\
-                     TI p1 gs G /\ (forall G0, replay_hist G0 (o_requests o1) = G0) /\ ps_kinds p1 = ps_kinds p).
+                     TI p1 gs G /\ (forall G0, replay_hist G0 (o_requests o1) = G0) /\ ps_kinds p1 = ps_kinds p /\
+                     ps_next_spec p1 = ps_next_spec p /\ ps_spectators p1 = ps_spectators p /\ o_spec_sends o1 = []).
   { destruct (Z.eqb_spec (s_current (ps_sync p)) 0) as [Ec|Ec]; cbn [andb].
     - unfold save_current_state. rewrite Ec. cbn [Z.ltb Z.compare res_bind].
-      eexists; eexists. split; [reflexivity|]. split; [|split; [|split; [reflexivity|split; [reflexivity|split; [reflexivity|split; [reflexivity|split; [|split; [|reflexivity]]]]]]]].
+      eexists; eexists. split; [reflexivity|]. split; [|split; [|split; [reflexivity|split; [reflexivity|split; [reflexivity|split; [reflexivity|split; [|split; [|repeat split]]]]]]]].
       + apply QS_same_queues; [exact HQS|first [reflexivity|cbn; lia]..].
       + destruct HJI as [Jw Jmp Jfr Jcur Jroll]. constructor; cbn [with_sync ps_maxpred ps_sync ps_sparse s_current s_maxpred]; try assumption.
         * rewrite <- Ec. exact Jfr.
@@ -589,15 +630,18 @@ Proof.
       + unfold TI in *. cbn [with_sync ps_sync s_current s_queues]. rewrite Ec in HTI. exact HTI.
       + intros G0. reflexivity.
     - exists p, out0. split; [reflexivity|]. split; [exact HQS|]. split; [exact HJI|].
-      split; [reflexivity|]. split; [reflexivity|]. split; [reflexivity|]. split; [reflexivity|]. split; [exact HTI|]. split; [intros G0; reflexivity|reflexivity]. }
-  destruct Hfirst as (p1 & o1 & E1 & HQS1 & HJI1 & Hst1 & Hlh1 & Hpe1 & Hrm1 & HTI1 & Hrep1 & Hkk1). rewrite E1 in E. cbn [res_bind] in E.
+      split; [reflexivity|]. split; [reflexivity|]. split; [reflexivity|]. split; [reflexivity|]. split; [exact HTI|]. split; [intros G0; reflexivity|repeat split]. }
+  destruct Hfirst as (p1 & o1 & E1 & HQS1 & HJI1 & Hst1 & Hlh1 & Hpe1 & Hrm1 & HTI1 & Hrep1 & Hkk1 & Hns1 & Hss1 & Hos1). rewrite E1 in E. cbn [res_bind] in E.
   rewrite (update_disconnects_noop p1) in E; [|rewrite Hst1; exact Hconn|rewrite Hrm1; exact Hgos]. cbn [res_bind] in E.
   destruct (advance_rollback_frame predict p1 o1) as [[p3 o3]| |] eqn:E3; cbn [res_bind] in E; try discriminate.
   injection E as <- <- <-.
-  destruct (advance_rollback_timeline p1 gs g w d o1 p3 o3 G E3 HQS1 HJI1) as (gs' & R & Ho & HQS' & HTI' & Hh' & Hkk'); [| |exact HTI1|].
+  destruct (advance_rollback_timeline p1 gs g w d o1 p3 o3 G E3 HQS1 HJI1) as (gs' & R & Ho & HQS' & HTI' & Hh' & Hkk' & cf & Ecf & Hsent & Hns' & Hss'); [| |exact HTI1|].
   { rewrite Hst1. exact Hbnd. }
   { intros h Hin. rewrite Hpe1. apply Hpend. rewrite <- Hlh1. exact Hin. }
-  exists gs'. split; [exact HQS'|]. split; [rewrite Ho, replay_hist_app, Hrep1; exact HTI'|]. split; [rewrite <- Hpe1, <- Hlh1; exact Hh'|congruence].
+  exists gs'. split; [exact HQS'|]. split; [rewrite Ho, replay_hist_app, Hrep1; exact HTI'|]. split; [rewrite <- Hpe1, <- Hlh1; exact Hh'|]. split; [congruence|].
+  apply (spec_sent_step p gs cf); [congruence| |].
+  - rewrite Hsent, Hos1. unfold spec_sent. rewrite Hss1, Hns1. reflexivity.
+  - rewrite Hns'. unfold next_spec_after. rewrite Hss1, Hns1. reflexivity.
 Qed.
 
 
@@ -686,7 +730,7 @@ Lemma step_timeline : forall p gs g w d o,
   QS w d p gs -> JI w p g -> TI p gs (g_hist g) -> op_ok p o = true ->
   exists s gs' g', sstep predict p o = Ok s /\ QS w d (sr_state s) gs' /\
     exec w g (o_requests (sr_out s)) = Some g' /\ JI w (sr_state s) g' /\ TI (sr_state s) gs' (g_hist g') /\
-    op_hist d p o gs gs' /\ ps_kinds (sr_state s) = ps_kinds p.
+    op_hist d p o gs gs' /\ ps_kinds (sr_state s) = ps_kinds p /\ spec_step p gs (sr_out s) (sr_state s).
 Proof.
   intros p gs g w d o HQS HJI HTI Hok.
   destruct o as [h v|pl f v|ep st|hs|h|h dd|]; cbn [op_ok] in Hok; try discriminate.
@@ -695,7 +739,9 @@ Proof.
     destruct (api_add_local_input p h v) as [p1 r1] eqn:E1. injection Es as <-. cbn [sr_state sr_out out0 o_requests exec fst] in *.
     injection Ex as <-. exists (mksr p1 out0 r1), gs, g. cbn [sstep sr_state sr_out out0 o_requests exec]. rewrite E1.
     split; [reflexivity|]. split; [exact HQl|]. split; [reflexivity|]. split; [exact HJ'|]. split; [eapply TI_sync; [exact Hs|exact HTI]|].
-    split; [reflexivity|]. unfold api_add_local_input in E1. destruct (kind_at p h) as [[| |]|]; injection E1 as <- _; reflexivity.
+    split; [reflexivity|]. unfold api_add_local_input in E1.
+    split; [destruct (kind_at p h) as [[| |]|]; injection E1 as <- _; reflexivity|].
+    apply spec_step_none; [| |reflexivity]; destruct (kind_at p h) as [[| |]|]; injection E1 as <- _; reflexivity.
   - apply andb_prop in Hok. destruct Hok as [Hok H5]. apply andb_prop in Hok. destruct Hok as [Hok H4].
     apply andb_prop in Hok. destruct Hok as [Hok H3]. apply andb_prop in Hok. destruct Hok as [H1 H2].
     destruct (nth_error (ps_kinds p) (Z.to_nat pl)) as [[|e|e]|] eqn:Ek; try discriminate.
@@ -706,8 +752,9 @@ Proof.
     split; [reflexivity|]. split; [exact HQ'|]. split; [reflexivity|].
     split; [eapply JI_frame; [exact HJI|]; eapply ev_input_frame; exact E|].
     split; [|split; [cbn [op_hist]; exists hist, low; split; [exact Eg|reflexivity]|]].
-    2:{ clear - E. unfold ev_input in E. destruct (negb _); [discriminate|]. destruct (cs_disc _); [injection E as <-; reflexivity|].
-        destruct (negb _); [discriminate|]. destruct (add_remote_input _ _ _ _); cbn [res_bind] in E; try discriminate. injection E as <-. reflexivity. }
+    2:{ clear - E. unfold ev_input in E. destruct (negb _); [discriminate|]. destruct (cs_disc _); [injection E as <-; split; [reflexivity|apply spec_step_none; reflexivity]|].
+        destruct (negb _); [discriminate|]. destruct (add_remote_input _ _ _ _); cbn [res_bind] in E; try discriminate. injection E as <-.
+        split; [reflexivity|apply spec_step_none; reflexivity]. }
     destruct HTI as (HG & HGI & HPN). unfold TI. rewrite Hc', Hqs'.
     pose proof (Forall2_nth _ _ _ _ _ _ (qs_qs _ _ _ _ HQS) Eq Eg) as Hqi. cbn [fst snd] in Hqi.
     destruct (gq_remote_add _ _ (g_hist g) (Z.to_nat pl) q hist low q' v Hqi (HGI _ _ _ Eq Eg) (HPN _ _ _ Eq Eg) F' P') as (HGQ' & HPN').
@@ -728,15 +775,15 @@ Proof.
     split; [reflexivity|]. split.
     { apply gossip_progress; [exact HQS|]. apply Forall_forall. intros s0 Hs0. rewrite forallb_forall in Hok.
       specialize (Hok s0 Hs0). destruct (cs_disc s0); [discriminate|reflexivity]. }
-    split; [reflexivity|]. split; [exact HJ'|]. split; [|split; [reflexivity|unfold gossip; destruct (nth_error (ps_remotes p) (Z.to_nat ep)); reflexivity]].
+    split; [reflexivity|]. split; [exact HJ'|]. split; [|split; [reflexivity|split; [unfold gossip; destruct (nth_error (ps_remotes p) (Z.to_nat ep)); reflexivity|apply spec_step_none; try reflexivity; unfold gossip; destruct (nth_error (ps_remotes p) (Z.to_nat ep)); reflexivity]]].
     eapply TI_sync; [|exact HTI]. unfold gossip. destruct (nth_error (ps_remotes p) (Z.to_nat ep)); reflexivity.
   - assert (Hbnd : Forall (fun c => cs_last c < I32MAX) (ps_status p)).
     { apply Forall_forall. intros s0 Hs0. rewrite forallb_forall in Hok. specialize (Hok s0 Hs0). lia. }
     destruct (advance_progress predict p gs g w d HQS HJI Hbnd) as (p' & o & r & _ & g' & E & _ & Ex & HJ').
-    destruct (advance_timeline p gs g w d p' o r (g_hist g) E HQS HJI Hbnd HTI) as (gs' & HQ' & HTI' & Hh' & Hkk').
+    destruct (advance_timeline p gs g w d p' o r (g_hist g) E HQS HJI Hbnd HTI) as (gs' & HQ' & HTI' & Hh' & Hkk' & Hss').
     cbn [sstep]. rewrite E. cbn [res_bind].
     exists (mksr p' o r), gs', g'. cbn [sr_state sr_out]. split; [reflexivity|]. split; [exact HQ'|]. split; [exact Ex|].
-    split; [exact HJ'|]. split; [rewrite (exec_hist _ _ _ _ Ex); exact HTI'|]. split; [exact Hh'|exact Hkk'].
+    split; [exact HJ'|]. split; [rewrite (exec_hist _ _ _ _ Ex); exact HTI'|]. split; [exact Hh'|split; [exact Hkk'|exact Hss']].
 Qed.
 
 (* the run theorem with the timeline invariant *)
@@ -750,7 +797,7 @@ Proof.
   - right. exists p, [], gs, g. cbn [srun_in srun exec_outs]. split; [reflexivity|]. split; [reflexivity|]. split; [reflexivity|].
     split; [exact HQS|]. split; [exact HJI|exact HTI].
   - cbn [srun_in srun]. destruct (op_ok p o) eqn:Hok; [|left; reflexivity].
-    destruct (step_timeline p gs g w d o HQS HJI HTI Hok) as (s & gs1 & g1 & Es & HQ1 & Ex1 & HJ1 & HT1 & _ & _).
+    destruct (step_timeline p gs g w d o HQS HJI HTI Hok) as (s & gs1 & g1 & Es & HQ1 & Ex1 & HJ1 & HT1 & _ & _ & _).
     rewrite Es. cbn [res_bind].
     destruct (IH (sr_state s) gs1 g1 w d HQ1 HJ1 HT1) as [Herr|(p' & outs & gs' & g' & E1 & E2 & Ex & HQ' & HJ' & HT')].
     + left. rewrite Herr. reflexivity.
@@ -781,7 +828,7 @@ Proof.
     split; [exact HQS|]. split; [exact HJI|]. split; [exact HTI|]. split; [reflexivity|].
     intros pl e hist low _ _ A. exists low. rewrite app_nil_r. exact A.
   - cbn [srun_in srun]. destruct (op_ok p o) eqn:Hok; [|left; reflexivity].
-    destruct (step_timeline p gs g w d o HQS HJI HTI Hok) as (s & gs1 & g1 & Es & HQ1 & Ex1 & HJ1 & HT1 & Hop & Hk1).
+    destruct (step_timeline p gs g w d o HQS HJI HTI Hok) as (s & gs1 & g1 & Es & HQ1 & Ex1 & HJ1 & HT1 & Hop & Hk1 & _).
     rewrite Es. cbn [res_bind].
     destruct (IH (sr_state s) gs1 g1 w d HQ1 HJ1 HT1) as [Herr|(p' & outs & gs' & g' & E1 & E2 & Ex & HQ' & HJ' & HT' & Hk' & Hst')].
     + left. rewrite Herr. reflexivity.
@@ -817,9 +864,9 @@ Proof.
       change (o :: ops) with ([o] ++ ops). unfold remote_vals. rewrite flat_map_app. reflexivity.
 Qed.
 
-Lemma TI_start : forall n w d kinds eps, TI (session_start n w false d kinds eps 0) (repeat ([], 0) (Z.to_nat n)) [].
+Lemma TI_start : forall n w d kinds eps nspec, TI (session_start n w false d kinds eps nspec) (repeat ([], 0) (Z.to_nat n)) [].
 Proof.
-  intros n w d kinds eps. unfold TI, session_start, p2p_new, sync_new.
+  intros n w d kinds eps nspec. unfold TI, session_start, p2p_new, sync_new.
   cbn [with_running with_queues ps_sync s_current s_queues glen length Z.of_nat].
   split; [reflexivity|]. split.
   - intros h q gh B C. apply nth_error_start_queues in B. apply nth_error_In, repeat_spec in C. subst gh. cbn [fst].
@@ -833,17 +880,17 @@ Qed.
 (* C01 on one session, every run inside the space: every frame up to the last confirmed frame that
    the game has simulated was last simulated, for every player, with the input the session holds
    for that frame and player (the histories gs of the invariant QS) *)
-Theorem confirmed_frames_use_held_inputs : forall ops n w d kinds eps p outs,
+Theorem confirmed_frames_use_held_inputs : forall ops n w d kinds eps nspec p outs,
   1 <= w -> 0 <= d -> w + d + 3 <= QLEN -> 0 < n -> Z.of_nat (length kinds) = n -> players_only kinds ->
-  srun_in predict (session_start n w false d kinds eps 0) ops = Ok (p, outs) ->
+  srun_in predict (session_start n w false d kinds eps nspec) ops = Ok (p, outs) ->
   exists g gs, exec_outs w (game0 w) outs = Some g /\ QS w d p gs /\ gframe g = s_current (ps_sync p) /\
     forall h hist low f, nth_error gs h = Some (hist, low) ->
       0 <= f <= s_last_confirmed (ps_sync p) -> f < s_current (ps_sync p) ->
       f < hlen hist /\ gvalL (g_hist g) f h = hval hist f.
 Proof.
-  intros ops n w d kinds eps p outs Hw Hd Hcap Hn Hlen Hpl H.
-  destruct (run_timeline ops _ _ (game0 w) w d (QS_start n w d kinds eps Hw Hd Hcap Hn Hlen Hpl)
-              (JI_start n w d kinds eps 0 ltac:(lia)) (TI_start n w d kinds eps))
+  intros ops n w d kinds eps nspec p outs Hw Hd Hcap Hn Hlen Hpl H.
+  destruct (run_timeline ops _ _ (game0 w) w d (QS_start n w d kinds eps nspec Hw Hd Hcap Hn Hlen Hpl)
+              (JI_start n w d kinds eps nspec ltac:(lia)) (TI_start n w d kinds eps nspec))
     as [E|(p' & outs' & gs & g & E1 & _ & Ex & HQS & HJ & (HG & HGI & _))]; [congruence|].
   rewrite H in E1. injection E1 as <- <-.
   exists g, gs. split; [exact Ex|]. split; [exact HQS|]. split; [exact (ji_frame _ _ _ HJ)|].
@@ -861,17 +908,17 @@ Qed.
 
 (* remote players in closed form: every confirmed, simulated frame f was last simulated with the f-th
    input delivered for that player during the run *)
-Theorem confirmed_frames_use_delivered_inputs : forall ops n w d kinds eps p outs,
+Theorem confirmed_frames_use_delivered_inputs : forall ops n w d kinds eps nspec p outs,
   1 <= w -> 0 <= d -> w + d + 3 <= QLEN -> 0 < n -> Z.of_nat (length kinds) = n -> players_only kinds ->
-  srun_in predict (session_start n w false d kinds eps 0) ops = Ok (p, outs) ->
+  srun_in predict (session_start n w false d kinds eps nspec) ops = Ok (p, outs) ->
   exists g, exec_outs w (game0 w) outs = Some g /\ gframe g = s_current (ps_sync p) /\
     forall pl e f, 0 <= pl -> nth_error kinds (Z.to_nat pl) = Some (KRemote e) ->
       0 <= f <= s_last_confirmed (ps_sync p) -> f < s_current (ps_sync p) ->
       f < hlen (remote_vals pl ops) /\ gvalL (g_hist g) f (Z.to_nat pl) = hval (remote_vals pl ops) f.
 Proof.
-  intros ops n w d kinds eps p outs Hw Hd Hcap Hn Hlen Hpl H.
-  destruct (run_timeline_streams ops _ _ (game0 w) w d (QS_start n w d kinds eps Hw Hd Hcap Hn Hlen Hpl)
-              (JI_start n w d kinds eps 0 ltac:(lia)) (TI_start n w d kinds eps))
+  intros ops n w d kinds eps nspec p outs Hw Hd Hcap Hn Hlen Hpl H.
+  destruct (run_timeline_streams ops _ _ (game0 w) w d (QS_start n w d kinds eps nspec Hw Hd Hcap Hn Hlen Hpl)
+              (JI_start n w d kinds eps nspec ltac:(lia)) (TI_start n w d kinds eps nspec))
     as [E|(p' & outs' & gs & g & E1 & _ & Ex & HQS & HJ & (HG & HGI & _) & _ & Hst)]; [congruence|].
   rewrite H in E1. injection E1 as <- <-.
   exists g. split; [exact Ex|]. split; [exact (ji_frame _ _ _ HJ)|].
@@ -902,7 +949,7 @@ Theorem held_inputs_step : forall p gs g w d o,
     TI (sr_state s) gs' (g_hist g') /\ op_hist d p o gs gs'.
 Proof.
   intros p gs g w d o HQS HJI HTI Hok.
-  destruct (step_timeline p gs g w d o HQS HJI HTI Hok) as (s & gs' & g' & A & B & _ & C & D & E & _).
+  destruct (step_timeline p gs g w d o HQS HJI HTI Hok) as (s & gs' & g' & A & B & _ & C & D & E & _ & _).
   exists s, gs', g'. split; [exact A|]. split; [exact B|]. split; [exact C|]. split; [exact D|exact E].
 Qed.
 
@@ -911,17 +958,17 @@ Qed.
    frame F that is still inside the saved-state window is the serial replay of the held inputs of the
    frames before F - for every player.  (A checksum of that state is therefore the same on every peer
    that holds the same inputs.) *)
-Theorem confirmed_saved_states_are_replays : forall ops n w d kinds eps p outs,
+Theorem confirmed_saved_states_are_replays : forall ops n w d kinds eps nspec p outs,
   1 <= w -> 0 <= d -> w + d + 3 <= QLEN -> 0 < n -> Z.of_nat (length kinds) = n -> players_only kinds ->
-  srun_in predict (session_start n w false d kinds eps 0) ops = Ok (p, outs) ->
+  srun_in predict (session_start n w false d kinds eps nspec) ops = Ok (p, outs) ->
   exists g gs, exec_outs w (game0 w) outs = Some g /\ QS w d p gs /\
     forall F, Z.max 0 (s_current (ps_sync p) - w) <= F <= s_current (ps_sync p) - 1 -> F <= s_last_confirmed (ps_sync p) ->
       exists H, nth (Z.to_nat (F mod (w + 1))) (g_cells g) (NULL, []) = (F, H) /\ cell_frame (ps_sync p) F = F /\
         forall h hist low f, nth_error gs h = Some (hist, low) -> 0 <= f < F -> gvalL H f h = hval hist f.
 Proof.
-  intros ops n w d kinds eps p outs Hw Hd Hcap Hn Hlen Hpl H.
-  destruct (run_timeline ops _ _ (game0 w) w d (QS_start n w d kinds eps Hw Hd Hcap Hn Hlen Hpl)
-              (JI_start n w d kinds eps 0 ltac:(lia)) (TI_start n w d kinds eps))
+  intros ops n w d kinds eps nspec p outs Hw Hd Hcap Hn Hlen Hpl H.
+  destruct (run_timeline ops _ _ (game0 w) w d (QS_start n w d kinds eps nspec Hw Hd Hcap Hn Hlen Hpl)
+              (JI_start n w d kinds eps nspec ltac:(lia)) (TI_start n w d kinds eps nspec))
     as [E|(p' & outs' & gs & g & E1 & _ & Ex & HQS & HJ & (HG & HGI & _))]; [congruence|].
   rewrite H in E1. injection E1 as <- <-.
   exists g, gs. split; [exact Ex|]. split; [exact HQS|].
